@@ -95,6 +95,8 @@ type Contracts struct {
 	Files   []string
 	Guards  map[string]string // guarded_by table: "metrics.Metric.LabelValues" -> lock field expr
 	Preds   map[string]*Pred
+	// opaqueRec: render recursive spec functions as uninterpreted (set only while rendering a query variant)
+	opaqueRec bool
 }
 
 var propTagRe = regexp.MustCompile(`\[((?:C\d+\s*)+)\]`)
@@ -530,6 +532,13 @@ func (c *Contracts) specDecls(mentions func(string) bool) string {
 		}
 		switch {
 		case sf.Body == "":
+			var ss []string
+			for _, p := range sf.Params {
+				ss = append(ss, p.Type)
+			}
+			fmt.Fprintf(&b, "(declare-fun %s (%s) %s)\n", sf.Name, strings.Join(ss, " "), sf.Ret)
+		case sf.Rec && c.opaqueRec:
+			// recursive definitions withheld (sound: fewer facts); the solver then relies on lemmas instead of unfolding
 			var ss []string
 			for _, p := range sf.Params {
 				ss = append(ss, p.Type)
